@@ -260,6 +260,47 @@ macro_rules! ctr_anypos {
     };
 }
 
+// ---------------------------------------------------------------------------------------------
+// B3. every byte offset p in [0, PMAX] (case split), after a first consumption of Q bytes (so the
+// seek is forward or backward depending on p): bytes p, p+1, p+2 of the keystream, positions exact.
+macro_rules! ctr_seek_all {
+    ($name:ident, $unw:expr, $alias:ident, $spec:expr, $bs:ty, $b:expr, $par:ty, $q:expr, $pmax:expr) => {
+        #[kani::proof]
+        #[kani::unwind($unw)]
+        pub fn $name() {
+            const B: usize = $b;
+            const PMAX: usize = $pmax;
+            const NB: usize = (PMAX + 3 + B) / B;
+            let key: [u8; 2] = kani::any();
+            let iv: [u8; B] = kani::any();
+            let c = UfE::<$bs, $par>::with_key(key);
+            let mut ks = [0u8; NB * B];
+            spec::ctr_ks(c.p(), $spec, &iv, 0, &mut ks);
+            let p: usize = kani::any();
+            kani::assume(p <= PMAX);
+            let d: [u8; 3] = kani::any();
+            let mut buf = d;
+            split_on!(p, 0, PMAX, p_ => {
+                let mut s = ctr::$alias::<UfE<$bs, $par>>::new(&key.into(), blk::<$bs>(&iv));
+                let mut skip = [0u8; $q];
+                s.try_apply_keystream(&mut skip).unwrap();
+                s.try_seek(p_ as u32).unwrap();
+                check_pos!(s, p_ as u128);
+                s.try_apply_keystream(&mut buf).unwrap();
+                check_pos!(s, p_ as u128 + 3);
+            });
+            let mut i = 0;
+            while i < 3 {
+                assert!(buf[i] == d[i] ^ ks[p + i], "bytes after seek(p) are not keystream bytes p, p+1, ...");
+                i += 1;
+            }
+            kani::cover!(p == PMAX);
+            kani::cover!(p == 0);
+            kani::cover!(p < $q);
+        }
+    };
+}
+
 // ---- quick -----------------------------------------------------------------------------------
 // Ctr32BE, b=4: keystream end = (2^32-1)*4 bytes.  Window at the start.
 ctr_seq!(seq_ctr32be_b4_w2_start, 64, Ctr32BE, spec::CTR32BE, U4, 4, U2, 0, 8, 9, 7, 2, 5, 12);
@@ -272,6 +313,8 @@ ctr_seq!(seq_ctr64le_b8_w1_start, 64, Ctr64LE, spec::CTR64LE, U8, 8, U1, 0, 5, 8
 ctr_seq!(seq_ctr128be_b16_w1_start, 100, Ctr128BE, spec::CTR128BE, U16, 16, U1, 0, 4, 33, 17, 15, 2, 48);
 ctr_seq!(seq_ctr128le_b16_w2_start, 100, Ctr128LE, spec::CTR128LE, U16, 16, U2, 0, 4, 16, 31, 1, 16, 63);
 belt_seq!(seq_belt_w1_start, 100, U1, 0, 4, 33, 17, 15, 2, 48);
+ctr_seek_all!(seekall_ctr32be_b4_w1_q5_p9, 64, Ctr32BE, spec::CTR32BE, U4, 4, U1, 5, 9);
+ctr_seek_all!(t_seekall_ctr64le_b8_w2_q11_p17, 64, Ctr64LE, spec::CTR64LE, U8, 8, U2, 11, 17);
 ctr_anypos!(any_ctr32be_b4_w1_o3_n6, 64, Ctr32BE, spec::CTR32BE, u32, U4, 4, U1, 3, 6, 0x7fff_fff0u32);
 ctr_anypos!(any_ctr64le_b8_w2_o0_n9, 64, Ctr64LE, spec::CTR64LE, u64, U8, 8, U2, 0, 9, 0x2000_0000_0000_0001u64);
 ctr_anypos!(any_ctr128be_b16_w1_o5_n12, 100, Ctr128BE, spec::CTR128BE, u128, U16, 16, U1, 5, 12, u128::MAX / 16 - 7);
@@ -283,6 +326,10 @@ ctr_seq!(t_seq_ctr32le_b16_w1_near_end, 100, Ctr32LE, spec::CTR32LE, U16, 16, U1
 ctr_seq!(t_seq_ctr64be_b16_w2_far, 100, Ctr64BE, spec::CTR64BE, U16, 16, U2, 0x0fff_ffff_ffff_fffe, 4, 0xffff_ffff_ffff_ffe5, 20, 0xffff_ffff_ffff_ffe0, 3, 0x1_0000_0000_0000_0011);
 ctr_seq!(t_seq_ctr128be_b16_w2_far, 100, Ctr128BE, spec::CTR128BE, U16, 16, U2, 0x0fff_ffff_ffff_fffe, 4, 0xffff_ffff_ffff_ffe5, 20, 0xffff_ffff_ffff_ffe0, 3, 0x1_0000_0000_0000_0011);
 belt_seq!(t_seq_belt_w2_far, 100, U2, 0x0fff_ffff_ffff_fffe, 4, 0xffff_ffff_ffff_ffe5, 20, 0xffff_ffff_ffff_fff1, 3, 0x1_0000_0000_0000_0011);
+ctr_seek_all!(t_seekall_ctr32le_b4_w2_q9_p13, 64, Ctr32LE, spec::CTR32LE, U4, 4, U2, 9, 13);
+ctr_seek_all!(t_seekall_ctr64be_b8_w1_q3_p17, 64, Ctr64BE, spec::CTR64BE, U8, 8, U1, 3, 17);
+ctr_seek_all!(t_seekall_ctr128be_b16_w1_q20_p33, 100, Ctr128BE, spec::CTR128BE, U16, 16, U1, 20, 33);
+ctr_seek_all!(t_seekall_ctr128le_b16_w2_q1_p33, 100, Ctr128LE, spec::CTR128LE, U16, 16, U2, 1, 33);
 ctr_anypos!(t_any_ctr32le_b4_w2_o5_n4, 64, Ctr32LE, spec::CTR32LE, u32, U4, 4, U2, 5, 4, 0x4000_0000u32);
 ctr_anypos!(t_any_ctr32be_b16_w1_o15_n2, 100, Ctr32BE, spec::CTR32BE, u32, U16, 16, U1, 15, 2, 0x1000_0000u32);
 ctr_anypos!(t_any_ctr64be_b8_w1_o7_n10, 64, Ctr64BE, spec::CTR64BE, u64, U8, 8, U1, 7, 10, u64::MAX / 8 + 1);
